@@ -608,7 +608,7 @@ def NoPass (s r : St) : Prop :=
 
 /-- the step ran the receiver filters of phase `p` from the current cursor -/
 def OnePass (c : Cfg) (s r : St) : Prop :=
-  ∃ p, r.trace = s.trace ++ [.rpass p s.cursor (runRecv c.recv p s.toFState).2] ∧
+  ∃ p, recvPhaseOf s.phase = some p ∧ r.trace = s.trace ++ [.rpass p s.cursor (runRecv c.recv p s.toFState).2] ∧
     r.cursor = (runRecv c.recv p s.toFState).1.cursor ∧ r.rcalls = (runRecv c.recv p s.toFState).1.rcalls
 
 theorem NoPass.via (c : Cfg) {s g : St} (h : NoPass s g) : NoPass s (afterPE c g) := by
@@ -641,16 +641,16 @@ theorem phaseCase_shape (c : Cfg) (s : St) : NoPass s (phaseCase c s) ∨ OnePas
   have stay : ∀ n, NoPass s { s with phase := n } := fun n => NoPass.same rfl rfl rfl
   have halt : ∀ e, isRpass e = false → NoPass s { emit s e with halted := true } :=
     fun e he => NoPass.emit1 e rfl he rfl rfl
-  have pass : ∀ p, OnePass c s (afterPE c (filterPass c p s)) := by
-    intro p
+  have pass : ∀ p, recvPhaseOf s.phase = some p → OnePass c s (afterPE c (filterPass c p s)) := by
+    intro p hp
     obtain ⟨h1, h2, h3⟩ := afterPE_trace_cursor c (filterPass c p s)
-    exact ⟨p, by rw [h1, filterPass_trace], by rw [h2]; simp [filterPass, emit, liftF],
+    exact ⟨p, hp, by rw [h1, filterPass_trace], by rw [h2]; simp [filterPass, emit, liftF],
       by rw [h3]; simp [filterPass, emit, liftF]⟩
   rcases phase_cases s.phase with h | h | h | h | h | h | h | h | h | h | h | h | h | h | h | h | h | h
   · rw [pc0 c s h]; exact Or.inl (stay _)
-  · rw [pc1 c s h]; exact Or.inr (pass _)
+  · rw [pc1 c s h]; exact Or.inr (pass _ (by rw [h]; rfl))
   · rw [pc2 c s h]; exact Or.inl (NoPass.via c (NoPass.same rfl rfl rfl))
-  · rw [pc3 c s h]; exact Or.inr (pass _)
+  · rw [pc3 c s h]; exact Or.inr (pass _ (by rw [h]; rfl))
   · rw [pc4 c s h]
     refine Or.inl (NoPass.via c ?_)
     unfold chooseHost; simp only []
@@ -658,7 +658,7 @@ theorem phaseCase_shape (c : Cfg) (s : St) : NoPass s (phaseCase c s) ∨ OnePas
     · exact NoPass.same rfl rfl rfl
     · exact NoPass.same rfl rfl rfl
     · split <;> exact NoPass.same rfl rfl rfl
-  · rw [pc5 c s h]; exact Or.inr (pass _)
+  · rw [pc5 c s h]; exact Or.inr (pass _ (by rw [h]; rfl))
   · rw [pc6 c s h]; left; split
     · apply NoPass.via
       unfold sendUpstream
@@ -767,7 +767,7 @@ structure Pinv (c : Cfg) (s : St) : Prop where
   cursor : s.cursor = cursorTrace 0 s.trace
 
 theorem step_Pinv (c : Cfg) (s : St) (h : Pinv c s) : Pinv c (step c s) := by
-  rcases step_shape c s with ⟨⟨evs, ht, hev⟩, hc, _⟩ | ⟨p, ht, hc, _⟩
+  rcases step_shape c s with ⟨⟨evs, ht, hev⟩, hc, _⟩ | ⟨p, _, ht, hc, _⟩
   · obtain ⟨r1, r2⟩ := resumeOK_noPass (cursorTrace 0 s.trace) evs hev
     refine ⟨?_, ?_, ?_⟩
     · intro p st invs hm
